@@ -952,6 +952,9 @@ var centerKeywordFakeToken = pa.NewIdent("center", pa.Pos{})
 func transformOrigin(tokens []Token, _ string) pr.CssProperty {
 	if len(tokens) == 3 {
 		// Ignore third parameter as 3D transforms are ignored.
+		if getLength(tokens[2], true, false).IsNone() {
+			return nil
+		}
 		tokens = tokens[:2]
 	}
 	if position := parse2dPosition(tokens); !position.IsNone() {
